@@ -379,8 +379,11 @@ def work_std_named_dir(chunk):
     for typ in chunk:
         d = tempfile.mkdtemp(prefix="ucgverif-c09-")
         try:
-            files = {"p/std/data.txt": "41", "p/std/data.json": '{"v": 41}', "p/main.ucg": "", "decoy/std/data.txt": "666", "decoy/std/data.json": '{"v": 666}'}
-            e = {"str": 'int(include str "std/data.txt")', "json": '(include json "std/data.json").v', "b64": 'select (include b64 "std/data.txt", 0) => {"NDE=" = 41}'}[typ]
+            files = {"p/std/data.txt": "41", "p/std/data.json": '{"v": 41}', "p/main.ucg": "", "decoy/std/data.txt": "666", "decoy/std/data.json": '{"v": 666}',
+                     # a data file that carries the name of an embedded library: only an import of that name means the library
+                     "p/std/lists.ucg": "41", "decoy/std/lists.ucg": "666"}
+            e = {"str": 'int(include str "std/data.txt")', "json": '(include json "std/data.json").v', "b64": 'select (include b64 "std/data.txt", 0) => {"NDE=" = 41}',
+                 "str-named-like-an-embedded-library": 'int(include str "std/lists.ucg")'}[typ]
             files["p/main.ucg"] = "let r = %s;\nout json {r = r};\n" % e
             write_project(d, files)
             bad = None
@@ -551,7 +554,7 @@ def run(ctx):
         absorb(part)
     for part in core.pmap(work_pkg, list(PKG_CASES), chunk=1):
         absorb(part)
-    for part in core.pmap(work_std_named_dir, ["str", "json", "b64"], chunk=1):
+    for part in core.pmap(work_std_named_dir, ["str", "json", "b64", "str-named-like-an-embedded-library"], chunk=1):
         absorb(part)
     for part in core.pmap(work_std_prefix, [(n, sp) for n in STD_PREFIX_CASES for sp in ("let", "inline", "in-function")], chunk=2):
         absorb(part)
